@@ -18,12 +18,12 @@ import (
 type Expr interface{ String() string }
 
 type (
-	EIdent  struct{ Name string }
-	EInt    struct{ V string }
-	EBool   struct{ V bool }
-	EStr    struct{ V string }
-	ENil    struct{}
-	EUnary  struct {
+	EIdent struct{ Name string }
+	EInt   struct{ V string }
+	EBool  struct{ V bool }
+	EStr   struct{ V string }
+	ENil   struct{}
+	EUnary struct {
 		Op string
 		X  Expr
 	}
